@@ -35,7 +35,7 @@ def run(chk):
         add_models(chk, ["Naming:cache"])
         items = []
         rng = random.Random(chk.seed)
-        for name, maxvar, stride in plans(chk.tier):
+        for name, maxvar, stride in progcheck.dev_filter(plans(chk.tier)):
             kw = dict(progcheck.CORPORA[name])
             keep = kw.pop("keep", None)
             kw.pop("observe_all", None)
